@@ -1,14 +1,19 @@
 package props
 
 import (
+	"bufio"
 	"bytes"
 	"encoding/csv"
 	"encoding/hex"
 	"errors"
 	"fmt"
+	"hash/fnv"
 	"io"
+	"os"
 	"strconv"
 	"strings"
+	"syscall"
+	"testing/iotest"
 
 	"github.com/go-openapi/runtime"
 
@@ -42,6 +47,15 @@ import (
 //	<records>                          records at a record destination ('*' none)
 //	<alias>                            pairs of delivered records sharing their backing array
 //	<misc>                             srcClose,dstClose,flushes,len,cap
+//
+// Choices among equivalent ways of doing the same thing are drawn from a hash of the case's own fields
+// (c16Bits) and are no model input: the option list (options at their zero value left out, an overridden
+// earlier setting of the same option, any order, WithCSVClosesStream twice); where the scripted stream of the
+// case neither fails nor is nil, a real stream of the same interfaces in its place (bytes.Reader, strings.Reader,
+// bytes.Buffer, bufio.Reader, one-byte / half / data-with-EOF readers, *os.File; bytes.Buffer, strings.Builder,
+// *os.File as sinks), closable through a counting wrapper (files: observed through a duplicated descriptor);
+// empty tables and byte slices nil or not; *[]byte / *string destinations and []byte / string sources of a named
+// type or not.
 //
 // Records travel as `r1|r2|…` with fields `f1,f2,…` in hex ('-' empty field, '_' record without
 // fields, '.' no records).
@@ -105,17 +119,96 @@ func (o c16Opts) enc() string {
 	return fmt.Sprintf("%d,%d,%d,%d,%d,%d,%d,%d,%d,%d", o.rc, o.rcm, o.fpr, b(o.lazy), b(o.trim), b(o.reuse), o.wc, b(o.crlf), o.skip, b(o.close))
 }
 
-func (o c16Opts) csvOpts() []runtime.CSVOpt {
-	out := []runtime.CSVOpt{
-		runtime.WithCSVReaderOpts(csv.Reader{Comma: o.rc, Comment: o.rcm, FieldsPerRecord: o.fpr,
-			LazyQuotes: o.lazy, TrimLeadingSpace: o.trim, ReuseRecord: o.reuse}),
-		runtime.WithCSVWriterOpts(csv.Writer{Comma: o.wc, UseCRLF: o.crlf}),
-		runtime.WithCSVSkipLines(o.skip),
+// csvOpts: the option list for this option set. bits chooses among the lists that mean the same: options
+// whose value is the zero value may be left out (bit 0); an option may have been given before with another
+// value — the later one counts (bit 1); the order of different options does not matter (bits 2-4);
+// WithCSVClosesStream may be repeated (bit 5).
+func (o c16Opts) csvOpts(bits uint32) []runtime.CSVOpt {
+	ro := csv.Reader{Comma: o.rc, Comment: o.rcm, FieldsPerRecord: o.fpr, LazyQuotes: o.lazy, TrimLeadingSpace: o.trim, ReuseRecord: o.reuse}
+	wo := csv.Writer{Comma: o.wc, UseCRLF: o.crlf}
+	var final []runtime.CSVOpt
+	override := bits>>1&1 == 1
+	lean := bits&1 == 1 && !override // (an option left out would let an earlier setting through)
+	if !(lean && o.rc == 0 && o.rcm == 0 && o.fpr == 0 && !o.lazy && !o.trim && !o.reuse) {
+		final = append(final, runtime.WithCSVReaderOpts(ro))
+	}
+	if !(lean && o.wc == 0 && !o.crlf) {
+		final = append(final, runtime.WithCSVWriterOpts(wo))
+	}
+	if !(lean && o.skip == 0) {
+		final = append(final, runtime.WithCSVSkipLines(o.skip))
 	}
 	if o.close {
-		out = append(out, runtime.WithCSVClosesStream())
+		final = append(final, runtime.WithCSVClosesStream())
+		if bits>>5&1 == 1 {
+			final = append(final, runtime.WithCSVClosesStream())
+		}
 	}
-	return out
+	for i, k := len(final)-1, bits>>2&7; i > 0; i-- { // a permutation picked by three bits
+		j := int(k) % (i + 1)
+		final[i], final[j] = final[j], final[i]
+		k = k*5 + 3
+	}
+	if !override {
+		return final
+	}
+	// every option once more, with other values, BEFORE the ones that count
+	out := []runtime.CSVOpt{
+		runtime.WithCSVSkipLines(o.skip + 7),
+		runtime.WithCSVWriterOpts(csv.Writer{Comma: '!', UseCRLF: !o.crlf}),
+		runtime.WithCSVReaderOpts(csv.Reader{Comma: '!', Comment: 'a', FieldsPerRecord: 9, // ('a': many generated lines begin with it)
+			LazyQuotes: !o.lazy, TrimLeadingSpace: !o.trim, ReuseRecord: !o.reuse}),
+	}
+	return append(out, final...)
+}
+
+// c16Bits: a hash of the case's own fields, the source of every choice that is not a model input.
+func c16Bits(fields []string) uint32 {
+	h := fnv.New32a()
+	for _, f := range fields {
+		_, _ = h.Write([]byte(f))
+		_, _ = h.Write([]byte{0})
+	}
+	return h.Sum32()
+}
+
+// c16File: a real (already unlinked) file holding content, positioned at its start, and a duplicate of its
+// descriptor (same open file description) through which content and closed-ness stay observable.
+func c16File(content []byte) (f *os.File, dup int) {
+	f, err := os.CreateTemp("", "c16-")
+	if err != nil {
+		panic(err)
+	}
+	_ = os.Remove(f.Name())
+	if _, err := f.Write(content); err != nil {
+		panic(err)
+	}
+	if _, err := f.Seek(0, io.SeekStart); err != nil {
+		panic(err)
+	}
+	if dup, err = syscall.Dup(int(f.Fd())); err != nil {
+		panic(err)
+	}
+	return f, dup
+}
+
+// c16FileDone: whether the codec had closed the file, and its content.
+func c16FileDone(f *os.File, dup int) (closed int, content []byte) {
+	defer syscall.Close(dup)
+	if errors.Is(f.Close(), os.ErrClosed) {
+		closed = 1
+	}
+	var st syscall.Stat_t
+	if err := syscall.Fstat(dup, &st); err != nil {
+		panic(err)
+	}
+	content = make([]byte, st.Size)
+	if st.Size > 0 {
+		if n, err := syscall.Pread(dup, content, 0); err != nil || n != int(st.Size) {
+			panic("C16: short read of the file")
+		}
+	}
+	return closed, content
 }
 
 // configure gives a standard reader the reader options of the option set (zero = the default).
@@ -249,6 +342,43 @@ type c16WriterToMarshaler struct { // io.WriterTo + encoding.BinaryMarshaler
 	c16WriterTo
 }
 type c16CSVReader struct{ r *csv.Reader } // CSVReader only
+type c16CSVReaderWriterTo struct {        // CSVReader + io.WriterTo (CSVReader comes first)
+	c16CSVReader
+	s *c16Script
+}
+type c16CSVReaderMarshaler struct { // CSVReader + encoding.BinaryMarshaler
+	c16CSVReader
+	s *c16Script
+}
+type c16CSVReaderCloser struct { // CSVReader + Close: no io.ReadCloser, never closed
+	c16CSVReader
+	s *c16Script
+}
+type c16ReaderMarshaler struct{ s *c16Script }    // io.Reader + encoding.BinaryMarshaler
+type c16MarshalerCloser struct{ c16Marshaler }    // encoding.BinaryMarshaler + Close: never closed
+type c16ReadCloserWriterTo struct{ s *c16Script } // io.ReadCloser + io.WriterTo (like *os.File): read, then closed
+type c16AnyReadCloser struct {                    // any reader made closable, Close counted
+	io.Reader
+	s *c16Script
+}
+type c16BytesReadCloser struct { // *bytes.Reader (Read, WriteTo, Seek, Len …) made closable
+	*bytes.Reader
+	s *c16Script
+}
+
+func (r c16CSVReaderWriterTo) WriteTo(io.Writer) (int64, error) { return 0, errC16WriteTo }   // not reached
+func (r c16CSVReaderMarshaler) MarshalBinary() ([]byte, error)  { return nil, errC16Marshal } // not reached
+func (r c16CSVReaderCloser) Close() error                       { r.s.closed++; return nil }
+func (r c16ReaderMarshaler) Read(p []byte) (int, error)         { return r.s.Read(p) }
+func (r c16ReaderMarshaler) MarshalBinary() ([]byte, error)     { return nil, errC16Marshal } // not reached
+func (m c16MarshalerCloser) Close() error                       { m.s.closed++; return nil }
+func (r c16ReadCloserWriterTo) Read(p []byte) (int, error)      { return r.s.Read(p) }
+func (r c16ReadCloserWriterTo) Close() error                    { r.s.closed++; return nil }
+func (r c16ReadCloserWriterTo) WriteTo(io.Writer) (int64, error) {
+	return 0, errC16WriteTo // not reached: the value is an io.Reader first
+}
+func (r c16AnyReadCloser) Close() error   { r.s.closed++; return nil }
+func (r c16BytesReadCloser) Close() error { r.s.closed++; return nil }
 
 func (r c16Reader) Read(p []byte) (int, error)         { return r.s.Read(p) }
 func (r c16ReadCloser) Read(p []byte) (int, error)     { return r.s.Read(p) }
@@ -314,6 +444,29 @@ type c16Unmarshaler struct{ s *c16Sink }       // encoding.BinaryUnmarshaler
 type c16WriterReaderFrom struct{ s *c16Sink }  // io.Writer + io.ReaderFrom (like *bytes.Buffer)
 type c16WriterUnmarshaler struct{ s *c16Sink } // io.Writer + encoding.BinaryUnmarshaler
 type c16ReaderFromUnmarshaler struct{ s *c16Sink }
+type c16WriterReaderFromUnmarshaler struct{ s *c16Sink } // all three byte interfaces: io.Writer first
+type c16WriterReaderFromCloser struct{ s *c16Sink }      // io.Writer + io.ReaderFrom + Close (like *os.File)
+type c16BufferWriteCloser struct {                       // *bytes.Buffer made closable
+	*bytes.Buffer
+	s *c16Sink
+}
+type c16BuilderWriteCloser struct {
+	*strings.Builder
+	s *c16Sink
+}
+
+func (w c16WriterReaderFromUnmarshaler) Write(p []byte) (int, error) { return w.s.write(p) }
+func (w c16WriterReaderFromUnmarshaler) ReadFrom(r io.Reader) (int64, error) {
+	return c16ReadFrom(w.s, r) // not reached
+}
+func (w c16WriterReaderFromUnmarshaler) UnmarshalBinary(b []byte) error { return c16Unmarshal(w.s, b) } // not reached
+func (w c16WriterReaderFromCloser) Write(p []byte) (int, error)         { return w.s.write(p) }
+func (w c16WriterReaderFromCloser) ReadFrom(r io.Reader) (int64, error) {
+	return c16ReadFrom(w.s, r) // not reached
+}
+func (w c16WriterReaderFromCloser) Close() error { w.s.closed++; return nil }
+func (w c16BufferWriteCloser) Close() error      { w.s.closed++; return nil }
+func (w c16BuilderWriteCloser) Close() error     { w.s.closed++; return nil }
 
 func (w c16Writer) Write(p []byte) (int, error)      { return w.s.write(p) }
 func (w c16WriteCloser) Write(p []byte) (int, error) { return w.s.write(p) }
@@ -370,6 +523,11 @@ func (w *c16CSVWriter) Error() error {
 	}
 	return nil
 }
+
+// c16CSVWriterBin: a CSVWriter that is also an encoding.BinaryUnmarshaler (CSVWriter comes first).
+type c16CSVWriterBin struct{ *c16CSVWriter }
+
+func (w c16CSVWriterBin) UnmarshalBinary([]byte) error { return errC16Unmarshal } // not reached
 
 // c16CSVWriterRF: a CSVWriter that is also an io.ReaderFrom (CSVWriter comes first).
 type c16CSVWriterRF struct{ *c16CSVWriter }
@@ -569,7 +727,9 @@ func c16ExecK(in []string) []string {
 	r1, t1 := c16Oracle(&c16Script{data: text, failAfter: ss[0]}, &o)
 	r2, t2 := c16Oracle(&c16Script{data: text, failAfter: ss[0]}, nil)
 
+	bits := c16Bits(in)
 	script := &c16Script{data: text, failAfter: ss[0]}
+	srcClosed := func() int { return script.closed }
 	var reader io.Reader
 	switch {
 	case ss[2] != 0:
@@ -579,8 +739,49 @@ func c16ExecK(in []string) []string {
 	default:
 		reader = c16Reader{script}
 	}
+	if which := bits >> 8 % 16; ss[2] == 0 && ss[0] < 0 && which < 7 {
+		// the same text from a real reader (closable through a counting wrapper, or a file)
+		var real io.Reader
+		switch which {
+		case 0:
+			real = bytes.NewReader(text)
+		case 1:
+			real = strings.NewReader(string(text))
+		case 2:
+			real = bytes.NewBuffer(append([]byte{}, text...))
+		case 3:
+			real = bufio.NewReaderSize(bytes.NewReader(text), 16)
+		case 4:
+			real = iotest.OneByteReader(bytes.NewReader(text))
+		case 5:
+			real = iotest.DataErrReader(bytes.NewReader(text)) // the last bytes together with io.EOF
+		default:
+			real = iotest.HalfReader(bytes.NewReader(text))
+		}
+		switch {
+		case ss[1] == 0:
+			reader = real
+		case which == 0 && bits>>12%2 == 0:
+			f, dup := c16File(text)
+			reader = f
+			closed, done := 0, false
+			srcClosed = func() int {
+				if !done {
+					closed, _ = c16FileDone(f, dup)
+					done = true
+				}
+				return closed
+			}
+		case which == 0:
+			reader = c16BytesReadCloser{bytes.NewReader(text), script}
+		default:
+			reader = c16AnyReadCloser{real, script}
+		}
+	}
 
 	sink := &c16Sink{fails: fails}
+	sinkGot := func() []byte { return sink.got }
+	dstClosed := func() int { return sink.closed }
 	cw := &c16CSVWriter{failAt: failAt, flushErr: fails}
 	var data interface{}
 	var tab *[][]string
@@ -595,16 +796,53 @@ func c16ExecK(in []string) []string {
 		data, haveCw = cw, true
 	case "csviface+xfer":
 		data, haveCw = c16CSVWriterRF{cw}, true
+	case "csviface+bin":
+		data, haveCw = c16CSVWriterBin{cw}, true
 	case "io":
 		data, haveSink = c16Writer{sink}, true
+		if !fails && bits>>13%3 == 0 {
+			b := &strings.Builder{} // Write (and WriteString) only
+			data, sinkGot = b, func() []byte { return []byte(b.String()) }
+		}
 	case "io+closer":
 		data, haveSink = c16WriteCloser{sink}, true
+		if !fails && bits>>13%3 == 0 {
+			b := &strings.Builder{}
+			data, sinkGot = c16BuilderWriteCloser{b, sink}, func() []byte { return []byte(b.String()) }
+		}
+	case "io+xfer+closer":
+		data, haveSink = c16WriterReaderFromCloser{sink}, true
+		if !fails && bits>>13%3 != 2 {
+			if bits>>13%3 == 0 {
+				b := &bytes.Buffer{}
+				data, sinkGot = c16BufferWriteCloser{b, sink}, b.Bytes
+			} else {
+				f, dup := c16File(nil)
+				data = f
+				closed, done := 0, false
+				var content []byte
+				finish := func() {
+					if !done {
+						closed, content = c16FileDone(f, dup)
+						done = true
+					}
+				}
+				sinkGot = func() []byte { finish(); return content }
+				dstClosed = func() int { finish(); return closed }
+			}
+		}
+	case "io+xfer+bin":
+		data, haveSink = c16WriterReaderFromUnmarshaler{sink}, true
 	case "xfer":
 		data, haveSink = c16ReaderFrom{sink}, true
 	case "bin":
 		data, haveSink = c16Unmarshaler{sink}, true
 	case "io+xfer":
 		data, haveSink = c16WriterReaderFrom{sink}, true
+		if !fails && bits>>13%3 == 0 {
+			b := &bytes.Buffer{} // the type the scripted one imitates
+			data, sinkGot = b, b.Bytes
+		}
 	case "io+bin":
 		data, haveSink = c16WriterUnmarshaler{sink}, true
 	case "xfer+bin":
@@ -613,6 +851,9 @@ func c16ExecK(in []string) []string {
 		switch shape {
 		case "ptab":
 			t := c16OldTable(dl, dc)
+			if dl == 0 && dc == 0 && bits>>16%2 == 0 {
+				t = nil // the table most callers start from: `var records [][]string`
+			}
 			tab = &t
 			data = tab
 		case "pntab":
@@ -632,6 +873,9 @@ func c16ExecK(in []string) []string {
 			}
 			pb = &b
 			data = pb
+			if bits>>16%3 == 0 {
+				data = (*c16Bytes)(pb) // a named byte slice type behind the pointer: same memory, same kind
+			}
 		case "pstr":
 			s := ""
 			if dl > 0 {
@@ -639,6 +883,9 @@ func c16ExecK(in []string) []string {
 			}
 			ps = &s
 			data = ps
+			if bits>>16%3 == 0 {
+				data = (*c16String)(ps)
+			}
 		case "nilptab":
 			data = c16NilTabP(nil)
 		case "nilpstr":
@@ -659,7 +906,7 @@ func c16ExecK(in []string) []string {
 
 	// A codec sits in a registry and serves many calls: on every other case the consumer judged here has
 	// already served a call on the same text (a codec that changes with use answers the second call differently).
-	consumer := runtime.CSVConsumer(o.csvOpts()...)
+	consumer := runtime.CSVConsumer(o.csvOpts(bits)...)
 	if len(text)%2 == 1 {
 		var warm [][]string
 		_ = c16Call(func() error { return consumer.Consume(bytes.NewReader(text), &warm) })
@@ -670,7 +917,7 @@ func c16ExecK(in []string) []string {
 	l, c := 0, 0
 	switch {
 	case haveSink:
-		sinkF = proto.B(string(sink.got))
+		sinkF = proto.B(string(sinkGot()))
 	case pb != nil:
 		sinkF = proto.B(string(*pb))
 	case ps != nil:
@@ -689,7 +936,7 @@ func c16ExecK(in []string) []string {
 		reparse = c16Reparse([]byte(proto.UnB(sinkF)), o.wc)
 	}
 	return []string{c16EncRecs(r1), t1, c16EncRecs(r2), t2, res, sinkF, reparse, recsF, proto.N(alias),
-		fmt.Sprintf("%d,%d,%d,%d,%d", script.closed, sink.closed, cw.flushes, l, c)}
+		fmt.Sprintf("%d,%d,%d,%d,%d", srcClosed(), dstClosed(), cw.flushes, l, c)}
 }
 
 func c16ExecP(in []string) []string {
@@ -709,23 +956,89 @@ func c16ExecP(in []string) []string {
 	r1, t1 := c16Oracle(&c16Script{data: text, failAfter: failAfter}, &o)
 	r2, t2 := c16Oracle(&c16Script{data: text, failAfter: failAfter}, nil)
 
+	bits := c16Bits(in)
 	once := func() (res, sinkF, reparse, misc string) {
 		table := c16DecRecs(in[3])
 		script := &c16Script{data: text, failAfter: failAfter}
+		srcClosed := func() int { return script.closed }
+		ownReader := func() c16CSVReader { // a caller's CSVReader carries its own configuration
+			r := csv.NewReader(c16Reader{script})
+			o.configure(r, o.reuse)
+			return c16CSVReader{r}
+		}
+		// a pure io.Reader over the same text, scripted or (if it never fails) from the standard library
+		pure := func() io.Reader {
+			if failAfter >= 0 {
+				return c16Reader{script}
+			}
+			switch bits >> 8 % 8 {
+			case 0:
+				return iotest.OneByteReader(bytes.NewReader(text))
+			case 1:
+				return iotest.HalfReader(bytes.NewReader(text))
+			case 2:
+				return iotest.DataErrReader(bytes.NewReader(text))
+			case 3:
+				return io.MultiReader(bytes.NewReader(text[:len(text)/2]), strings.NewReader(string(text[len(text)/2:])))
+			}
+			return c16Reader{script}
+		}
 		var data interface{}
 		switch caps {
 		case "csvptr+csviface":
-			data = csv.NewReader(c16Reader{script})
+			data = csv.NewReader(pure())
 		case "csviface":
-			r := csv.NewReader(c16Reader{script})
-			o.configure(r, o.reuse)
-			data = c16CSVReader{r}
+			data = ownReader()
+		case "csviface+xfer":
+			data = c16CSVReaderWriterTo{ownReader(), script}
+		case "csviface+bin":
+			data = c16CSVReaderMarshaler{ownReader(), script}
+		case "csviface+closer":
+			data = c16CSVReaderCloser{ownReader(), script}
 		case "io":
-			data = c16Reader{script}
+			data = pure()
 		case "io+closer":
 			data = c16ReadCloser{script}
+			if failAfter < 0 && bits>>8%8 < 4 {
+				data = c16AnyReadCloser{pure(), script}
+			}
+		case "io+bin":
+			data = c16ReaderMarshaler{script}
 		case "io+xfer":
 			data = c16ReaderWriterTo{script}
+			if failAfter < 0 {
+				switch bits >> 8 % 8 { // the types the scripted one imitates
+				case 0:
+					data = strings.NewReader(string(text))
+				case 1:
+					data = bytes.NewReader(text)
+				case 2:
+					data = bytes.NewBuffer(append([]byte{}, text...))
+				case 3:
+					data = bufio.NewReaderSize(bytes.NewReader(text), 16)
+				}
+			}
+		case "io+xfer+closer":
+			data = c16ReadCloserWriterTo{script}
+			if failAfter < 0 {
+				switch bits >> 8 % 4 {
+				case 0:
+					data = c16BytesReadCloser{bytes.NewReader(text), script}
+				case 1:
+					f, dup := c16File(text)
+					data = f
+					closed, done := 0, false
+					srcClosed = func() int {
+						if !done {
+							closed, _ = c16FileDone(f, dup)
+							done = true
+						}
+						return closed
+					}
+				}
+			}
+		case "bin+closer":
+			data = c16MarshalerCloser{c16Marshaler{script, fails}}
 		case "xfer":
 			data = c16WriterTo{script, fails, chunk}
 		case "xfer+closer":
@@ -735,8 +1048,12 @@ func c16ExecP(in []string) []string {
 		case "bin":
 			data = c16Marshaler{script, fails}
 		case "-":
-			if table == nil {
-				table = [][]string{}
+			if table == nil && bits>>11%2 == 0 {
+				table = [][]string{} // (on the other cases an empty table is the nil slice)
+			}
+			plainText := text
+			if len(text) == 0 && bits>>11%2 == 1 {
+				plainText = nil
 			}
 			switch shape {
 			case "tab":
@@ -759,16 +1076,28 @@ func c16ExecP(in []string) []string {
 					}
 				}
 				data = t
-			case "bytes":
-				data = text
+			case "bytes": // of the plain or of a named type
+				data = plainText
+				if bits>>12%2 == 1 {
+					data = c16Bytes(plainText)
+				}
 			case "pbytes":
-				b := c16Bytes(text)
+				b := c16Bytes(plainText)
 				data = &b
+				if bits>>12%2 == 1 {
+					data = (*[]byte)(&b)
+				}
 			case "str":
 				data = string(text)
+				if bits>>12%2 == 1 {
+					data = c16String(text)
+				}
 			case "pstr":
 				x := c16String(text)
 				data = &x
+				if bits>>12%2 == 1 {
+					data = (*string)(&x)
+				}
 			case "nilptab":
 				data = c16NilTabP(nil)
 			case "nilpstr":
@@ -785,6 +1114,8 @@ func c16ExecP(in []string) []string {
 		}
 
 		sink := &c16Sink{fails: ks[0] != 0}
+		sinkGot := func() []byte { return sink.got }
+		dstClosed := func() int { return sink.closed }
 		var writer io.Writer
 		switch {
 		case ks[2] != 0:
@@ -794,8 +1125,38 @@ func c16ExecP(in []string) []string {
 		default:
 			writer = c16Writer{sink}
 		}
+		if which := bits >> 14 % 12; ks[2] == 0 && ks[0] == 0 && which < 5 {
+			// a real sink (closable through a counting wrapper, or a file)
+			switch {
+			case ks[1] != 0 && which == 4:
+				f, dup := c16File(nil)
+				writer = f
+				closed, done := 0, false
+				var content []byte
+				finish := func() {
+					if !done {
+						closed, content = c16FileDone(f, dup)
+						done = true
+					}
+				}
+				sinkGot = func() []byte { finish(); return content }
+				dstClosed = func() int { finish(); return closed }
+			case which%2 == 0:
+				b := &bytes.Buffer{}
+				writer, sinkGot = b, b.Bytes
+				if ks[1] != 0 {
+					writer = c16BufferWriteCloser{b, sink}
+				}
+			default:
+				b := &strings.Builder{}
+				writer, sinkGot = b, func() []byte { return []byte(b.String()) }
+				if ks[1] != 0 {
+					writer = c16BuilderWriteCloser{b, sink}
+				}
+			}
+		}
 
-		producer := runtime.CSVProducer(o.csvOpts()...)
+		producer := runtime.CSVProducer(o.csvOpts(bits)...)
 		if len(text)%2 == 1 { // second use of the same codec, as in c16ExecK
 			_ = c16Call(func() error { return producer.Produce(io.Discard, string(text)) })
 		}
@@ -803,10 +1164,10 @@ func c16ExecP(in []string) []string {
 
 		sinkF, reparse = "*", "*"
 		if writer != nil {
-			sinkF = proto.B(string(sink.got))
-			reparse = c16Reparse(sink.got, o.wc)
+			sinkF = proto.B(string(sinkGot()))
+			reparse = c16Reparse(sinkGot(), o.wc)
 		}
-		return res, sinkF, reparse, fmt.Sprintf("%d,%d,0,0,0", script.closed, sink.closed)
+		return res, sinkF, reparse, fmt.Sprintf("%d,%d,0,0,0", srcClosed(), dstClosed())
 	}
 
 	// The io.WriterTo clause runs two goroutines: the call is repeated (fresh objects each time) and
@@ -968,14 +1329,18 @@ func c16Skip(r *proto.Rng, nrec int) int {
 		return 0
 	case r.Chance(1, 20):
 		return -1 - r.Intn(3)
+	case r.Chance(1, 25):
+		return 1000 + r.Intn(1<<20) // far beyond any input
 	}
 	return r.Intn(nrec + 3)
 }
 
-var c16DstCaps = []string{"csvptr+csviface", "csviface", "io", "xfer", "bin", "io+xfer", "io+bin", "xfer+bin", "csviface+xfer", "io+closer"}
+var c16DstCaps = []string{"csvptr+csviface", "csviface", "io", "xfer", "bin", "io+xfer", "io+bin", "xfer+bin", "csviface+xfer", "io+closer",
+	"csviface+bin", "io+xfer+bin", "io+xfer+closer", "io+xfer+closer"}
 var c16DstShapes = []string{"ptab", "ptab", "ptab", "ptab", "ptab", "pntab", "pbytes", "pstr", "pbytes", "pstr"}
 var c16DstOdd = []string{"pnrow", "pnstr", "nilptab", "nilpstr", "nonptr", "pint", "nil"}
-var c16SrcCaps = []string{"csvptr+csviface", "csviface", "io", "io+closer", "io+xfer", "xfer", "xfer+closer", "xfer+bin", "bin", "bin"}
+var c16SrcCaps = []string{"csvptr+csviface", "csviface", "io", "io+closer", "io+xfer", "xfer", "xfer+closer", "xfer+bin", "bin", "bin",
+	"csviface+xfer", "csviface+bin", "csviface+closer", "io+bin", "bin+closer", "io+xfer+closer", "io+xfer+closer", "io", "io+xfer"}
 var c16SrcShapes = []string{"tab", "tab", "ptab", "ntab", "bytes", "bytes", "pbytes", "str", "str", "pstr"}
 var c16SrcOdd = []string{"nrow", "nstr", "nilptab", "nilpstr", "int", "nil"}
 
